@@ -144,32 +144,24 @@ Search::Search(const Position& position, const Limits& limits,
         _root_moves.insert(_root_moves.end(), begin, end);
     }
 
-    if (limits.infinite)
-    {
-        _search_depth = MAX_DEPTH;
-        _search_time = INFINITE_DURATION;
-    }
-    else if (limits.depth != 0)
+    // depth and time limits are independent: whichever is reached first ends
+    // the search (go depth 30 wtime 300 must not think longer than the clock allows)
+    _search_depth = MAX_DEPTH;
+    _search_time = INFINITE_DURATION;
+    if (!limits.infinite)
     {
         // the per-iteration arrays are sized for MAX_DEPTH iterations
-        _search_depth = std::min(limits.depth, MAX_DEPTH);
-        _search_time = INFINITE_DURATION;
-    }
-    else if (limits.movetime != 0)
-    {
-        _search_depth = MAX_DEPTH;
-        _search_time = limits.movetime;
-    }
-    else if (limits.clock || limits.timeleft[position.color()] != 0)
-    {
-        _search_time = TimeManager::calculateTime(limits, position.color(),
-                                                  position.ply_count());
-        _search_depth = MAX_DEPTH;
-    }
-    else
-    {
-        _search_depth = 7;
-        _search_time = INFINITE_DURATION;
+        if (limits.depth != 0) _search_depth = std::min(limits.depth, MAX_DEPTH);
+
+        if (limits.movetime != 0)
+            _search_time = limits.movetime;
+        else if (limits.clock || limits.timeleft[position.color()] != 0)
+            _search_time = TimeManager::calculateTime(limits, position.color(),
+                                                      position.ply_count());
+
+        // no depth and no time given: a fixed depth
+        if (limits.depth == 0 && _search_time == INFINITE_DURATION)
+            _search_depth = 7;
     }
 
     if (_max_nodes_searched == 0) _max_nodes_searched = MAX_NODE_COUNT;
